@@ -197,11 +197,11 @@ PROPS['C02'] = {
 
 PROPS['C03'] = {
     'level': 'other',
-    'units': ['C18/smallints', 'C04/less'],
+    'units': ['C18/smallints', 'C04/less', 'C04/occ'],
     'kani': [],
     'oracle': 'C03',
     'decided': ['the LCP-array container SmallInts<i8, isize> (anchored file smallints.rs) behaves as a plain Vec<isize> for every value incl. exactly 127, larger and negative (unit shared with C18)',
-                'bwt/less (used by the sampled suffix array walk) are exact (unit shared with C04)'],
+                'bwt/less/Occ (used by the sampled suffix array walk, every Occ sampling rate) are exact (units shared with C04)'],
     'undecided': ['SA-IS construction (Sais::{construct, calc_lms_pos, sort_lms_suffixes, calc_pos}): the sorted-permutation clause - induced sorting correctness is out of reach of the contracts built here',
                   'lcp (Kasai) and shortest_unique_substrings against their definitions', 'SampledSuffixArray::get walk', 'transform_text / sentinel_count (closure adapters, generic casts)'],
     'trusted': ['as C18 / C04'],
